@@ -161,6 +161,7 @@ fn scenario(cfg: &Cfg) -> Verdict {
         yields: false,
         select: false,
         policy: 0,
+        coop: false,
     });
     let local = cfg.local;
     let victim = e3::raw_conn("V");
